@@ -308,4 +308,125 @@ theorem spec_last_write (t : Nat) (k : κ) :
         simp only [Option.map_some, Option.some.injEq] at h1 ⊢
         rw [h1]; rfl
 
+/-! ### "last write wins" for EVERY history: `assign` / `copy` take over the pending writes of the source variable,
+    `new` with pairs and `assign` from another kind of map bind the last pair that names the key -/
+
+/-- the value of the last pair of a pair list that names `k` -/
+def pairsLast (kvs : List (κ × ν)) (k : κ) : Option ν := (kvs.reverse.find? (fun p => decide (p.1 = k))).map (·.2)
+
+/-- what one operation does to the pending writes `w` (per table variable and key) of `N` table variables.  For the plain
+    operations this is `writeStep`, for every variable and key at once. -/
+def writeAll (N : Nat) (w : Nat → κ → Option ν) : Op κ ν → Nat → κ → Option ν
+  | .set t' k' v => fun t k => if t' = t ∧ k' = k then some v else w t k
+  | .rem t' k' => fun t k => if t' = t ∧ k' = k then none else w t k
+  | .resize t' n => fun t k => if t' = t ∧ n = 0 then none else w t k
+  | .new t' => fun t k => if t' = t then none else w t k
+  | .assign d s => if d < N ∧ s < N then (fun t k => if d = t then w s k else w t k) else w
+  | .copy d s => if d < N ∧ s < N then (fun t k => if d = t then w s k else w t k) else w
+  | .newWith t' kvs odd => if odd then w else (fun t k => if t' = t then pairsLast kvs k else w t k)
+  | .assignMap d kvs => fun t k => if d = t then pairsLast kvs k else w t k
+  | _ => w
+
+/-- what a history leaves bound to key `k` in table variable `t`, starting from empty tables -/
+def lastBinding (N : Nat) (ops : List (Op κ ν)) : Nat → κ → Option ν := ops.foldl (writeAll N) (fun _ _ => none)
+
+theorem writeAll_plain (N : Nat) (w : Nat → κ → Option ν) (op : Op κ ν) (hop : op.isPlain) (t : Nat) (k : κ) :
+    writeAll N w op t k = writeStep t k op (w t k) := by
+  cases op <;> first | rfl | exact absurd hop (by simp [Op.isPlain])
+
+/-- on plain histories `lastBinding` is the single-key reading `lastWrite` -/
+theorem foldl_writeAll_plain (N : Nat) (t : Nat) (k : κ) : ∀ (ops : List (Op κ ν)) (w : Nat → κ → Option ν),
+    (∀ op ∈ ops, op.isPlain) → ops.foldl (writeAll N) w t k = lastWrite t k ops (w t k) := by
+  intro ops
+  induction ops with
+  | nil => intro w _; rfl
+  | cons op ops ih =>
+    intro w hplain
+    rw [List.foldl_cons, ih _ (fun o ho => hplain o (List.mem_cons_of_mem _ ho)),
+      writeAll_plain N w op (hplain op List.mem_cons_self)]
+    rfl
+
+theorem specStep_length (ms : List (Spec κ ν)) (op : Op κ ν) : (specStep ms op).1.length = ms.length := by
+  cases op <;> simp only [specStep] <;> (repeat' split) <;> simp
+
+private theorem getElem?_of_lt {α : Type} {l : List α} {i : Nat} (h : i < l.length) : l[i]? = some l[i] :=
+  List.getElem?_eq_getElem h
+
+theorem specStep_writeAll (N : Nat) (ms : List (Spec κ ν)) (hN : ms.length = N) (w : Nat → κ → Option ν)
+    (hw : ∀ t k, t < N → (ms[t]?).map (fun m => Spec.get m k) = some (w t k)) (op : Op κ ν) :
+    ∀ t k, t < N → ((specStep ms op).1[t]?).map (fun m => Spec.get m k) = some (writeAll N w op t k) := by
+  intro t k ht
+  by_cases hop : op.isPlain
+  · rw [specStep_write t k ms op hop, writeAll_plain N w op hop]
+    have := hw t k ht
+    cases hm : ms[t]? with
+    | none => rw [hm] at this; cases this
+    | some m =>
+      rw [hm] at this
+      simp only [Option.map_some, Option.some.injEq] at this ⊢
+      rw [this]
+  · have copyCase : ∀ d s, ((match ms[d]?, ms[s]? with
+          | some _, some m => (ms.set d m, (Obs.done : Obs κ ν))
+          | _, _ => (ms, .badOp)).1[t]?).map (fun m => Spec.get m k)
+        = some ((if d < N ∧ s < N then (fun t k => if d = t then w s k else w t k) else w) t k) := by
+      intro d s
+      by_cases hds : d < N ∧ s < N
+      · rw [if_pos hds]
+        have hd : d < ms.length := hN ▸ hds.1
+        have hs : s < ms.length := hN ▸ hds.2
+        simp only [getElem?_of_lt hd, getElem?_of_lt hs, List.getElem?_set, hd, if_true]
+        by_cases e : d = t
+        · subst e
+          have := hw s k hds.2
+          rw [getElem?_of_lt hs] at this
+          simpa using this
+        · simp only [e, if_false]; exact hw t k ht
+      · rw [if_neg hds]
+        have : ms[d]? = none ∨ ms[s]? = none := by
+          by_cases hd : d < N
+          · right; rw [List.getElem?_eq_none_iff]; have := fun h => hds ⟨hd, h⟩; omega
+          · left; rw [List.getElem?_eq_none_iff]; omega
+        rcases this with h | h
+        · simp only [h]; exact hw t k ht
+        · cases hd : ms[d]? <;> simp only [h] <;> exact hw t k ht
+    have pairsCase : ∀ (t' : Nat) (kvs : List (κ × ν)),
+        ((if t' < ms.length then (ms.set t' (Spec.ofPairs kvs), (Obs.done : Obs κ ν)) else (ms, .badOp)).1[t]?).map
+          (fun m => Spec.get m k) = some (if t' = t then pairsLast kvs k else w t k) := by
+      intro t' kvs
+      by_cases e : t' = t
+      · subst e
+        have hl : t' < ms.length := hN ▸ ht
+        simp only [hl, if_true, List.getElem?_set, Option.map_some, ofPairs_get, pairsLast]
+      · simp only [e, if_false]
+        split
+        · simp only [List.getElem?_set, e, if_false]; exact hw t k ht
+        · exact hw t k ht
+    cases op with
+    | assign d s => simp only [specStep, writeAll]; exact copyCase d s
+    | copy d s => simp only [specStep, writeAll]; exact copyCase d s
+    | newWith t' kvs odd =>
+      cases odd with
+      | true =>
+        simp only [specStep, writeAll, if_true]
+        split <;> exact hw t k ht
+      | false =>
+        simp only [specStep, writeAll, Bool.false_eq_true, if_false]
+        exact pairsCase t' kvs
+    | assignMap d kvs => simp only [specStep, writeAll]; exact pairsCase d kvs
+    | _ => exact absurd (by simp [Op.isPlain]) hop
+
+/-- **the specification is "last write wins", for every history**: table variable `t` binds `k` to what `lastBinding`
+    computes from the operations alone -/
+theorem spec_last_binding (N : Nat) : ∀ (ops : List (Op κ ν)) (ms : List (Spec κ ν)) (w : Nat → κ → Option ν),
+    ms.length = N → (∀ t k, t < N → (ms[t]?).map (fun m => Spec.get m k) = some (w t k)) →
+    ∀ t k, t < N → ((specRun ms ops).1[t]?).map (fun m => Spec.get m k) = some (ops.foldl (writeAll N) w t k) := by
+  intro ops
+  induction ops with
+  | nil => intro ms w _ hw t k ht; simpa [specRun] using hw t k ht
+  | cons op ops ih =>
+    intro ms w hN hw t k ht
+    have hrun : (specRun ms (op :: ops)).1 = (specRun (specStep ms op).1 ops).1 := rfl
+    rw [hrun, List.foldl_cons]
+    exact ih (specStep ms op).1 (writeAll N w op) (by rw [specStep_length, hN]) (specStep_writeAll N ms hN w hw op) t k ht
+
 end Cello.Table
